@@ -245,6 +245,15 @@ def run_twin_property(run, *, prop, propfile, module, theorems, cases, known_pre
     for c in cases:
         qc = c["qc"]
         ctx = ctx_for(qc)
+        # an earlier rendering under another dialect's conventions (other quote character, other backslash rule), str() and hash() must not
+        # influence this one: the objects are rendered there first (a per-object memo of quoted text shows up as a false twin statement)
+        other = ctx_for(PostgreSQLQuery if qc is MySQLQuery else MySQLQuery)
+        for o in (c["A"], c["B"]):
+            render(o, other)
+            try:
+                str(o), hash(o)
+            except Exception:  # noqa
+                pass
         sa, sb = render(c["A"], ctx), render(c["B"], ctx)
         if sb.startswith("EXC:") and sa.startswith("EXC:"):
             nskip += 1
